@@ -59,7 +59,7 @@ FLAVORS = {
     # sanitized library + harness: every pure correspondence runs on this one (C13 rides along)
     'asan': ['-O1', '-g', '-fsanitize=address,undefined', '-fno-sanitize-recover=all', '-fno-omit-frame-pointer'],
     # plain build: the real ninja binary and speed-sensitive engine runs
-    'plain': ['-O1', '-g'],
+    'plain': ['-O1', '-g', '-DNDEBUG'],   # like the repository's own RelWithDebInfo build: assert() is compiled out
 }
 
 def impl_hash(flavor):
